@@ -10,6 +10,7 @@ fresh subprocess.  The recorded runtime events are validated against the sub-ste
 
 import json
 import os
+import shutil
 import subprocess
 import sys
 import tempfile
@@ -54,6 +55,14 @@ def build_request(rid):
         kw.update(modes=(6, 4))
     elif rid == 8:
         kw.update(footprint=False, levels=[1, 5, 2], precision="double", meas_pt=(0.0, 0.0))
+    elif rid == 9:
+        # outside the model's alphabet: a finer column and grid (the shooting sweep amplifies last-bit differences of the
+        # kernel's arithmetic) - used for the comparison across processes and thread settings only
+        from bldfm.pbl_model import vertical_profiles
+
+        zf, proff = vertical_profiles(32, 10.0, (3.0, 1.0), ustar=0.4, mol=-200.0)
+        kw.update(z=zf, profiles=proff, domain=(100.0, 75.0), footprint=False, meas_pt=(0.0, 0.0), precision="double", levels=[16, 32], modes=(64, 48), halo=50.0)
+        shape = (48, 64)
     q = rng.uniform(-1, 2, size=shape)
     return q, kw
 
@@ -154,17 +163,24 @@ def apply_op(op, arg):
     raise MachineryError("unknown op " + op)
 
 
-def fresh_reference(rid, outdir):
-    """solve request rid in a fresh subprocess (default state, one thread)"""
-    out = os.path.join(outdir, "ref_%d.npz" % rid)
+def fresh_reference(rid, outdir, threads=1, numba_cache=None):
+    """solve request rid in a fresh subprocess (default state, one thread; optionally another thread setting and a private,
+    empty numba cache directory - the compiled kernel variants then come from this process alone)"""
+    out = os.path.join(outdir, "ref_%d_%d%s.npz" % (rid, threads, "_own" if numba_cache else ""))
     code = (
         "import sys, numpy as np\n"
         "sys.path.insert(0, %r)\n"
+        "from bldfm import config as _c\n"
+        "_c.NUM_THREADS = %d\n"
         "from harness.check_runtime import solve_request\n"
         "c, f = solve_request(%d)\n"
-        "np.savez(%r, conc=c, flx=f)\n" % (common.VERIF, rid, out)
+        "np.savez(%r, conc=c, flx=f)\n" % (common.VERIF, threads, rid, out)
     )
     env = dict(os.environ)
+    if numba_cache:
+        shutil.rmtree(numba_cache, ignore_errors=True)
+        os.makedirs(numba_cache)
+        env["NUMBA_CACHE_DIR"] = numba_cache
     env.pop("BLDFM_VERIF_TRACE", None)
     env["PYTHONPATH"] = common.VERIF + os.pathsep + os.path.join(common.REPO, "src")
     p = subprocess.run([common.PY, "-c", code], cwd=outdir, env=env, stdout=subprocess.PIPE, stderr=subprocess.STDOUT, text=True)
@@ -246,6 +262,21 @@ def main():
     tracefile = os.path.join(common.scratch("trace_raw_C12"), "events.ndjson")
     with ThreadPoolExecutor(8) as ex:
         refs = dict(zip(range(1, 9), ex.map(lambda i: fresh_reference(i, work), range(1, 9))))
+    # across processes AND thread settings, each with its own empty compiled-kernel cache (what a process finds on disk
+    # from earlier runs must not decide which numbers it computes): 4 threads vs 1 thread, double precision requests
+    own = {}
+    with ThreadPoolExecutor(4) as ex:
+        jobs = {(rid, th): ex.submit(fresh_reference, rid, work, th, os.path.join(work, "numba_%d_%d" % (rid, th))) for rid in (5, 9) for th in (1, 4)}
+        own = {k: j.result() for k, j in jobs.items()}
+    for rid in (5, 9):
+        (c1_, f1_), (c4_, f4_) = own[(rid, 1)], own[(rid, 4)]
+        d = max(rel(c1_, c4_), rel(f1_, f4_))
+        if rid in refs:
+            d = max(d, rel(c1_, refs[rid][0]), rel(f1_, refs[rid][1]))
+        chk.case(("own_cache", rid))
+        if d > 1e-12:
+            chk.violation("request %d solved in fresh processes with private kernel caches: 1 thread, 4 threads and the shared-cache process differ by %.3e relative (tolerance 1e-12)" % (rid, d),
+                          {"kind": "fresh_process_threads", "request": rid}, klass={"check": "fresh_process_threads", "request": rid})
     os.environ["BLDFM_VERIF_TRACE"] = tracefile
     first = {}
     prec_of = {rid: build_request(rid)[1]["precision"] for rid in range(1, 9)}
